@@ -247,7 +247,8 @@ class Extractor:
             if line is None:
                 break
 
-            tag: str = line[:4]
+            # Like zic, ignore white space in front of 'Rule', 'Zone' and 'Link'.
+            tag: str = line.lstrip()[:4]
             if tag == 'Rule':
                 tokens: List[str] = line.split()
                 rule_name: str = tokens[1]
@@ -265,9 +266,10 @@ class Extractor:
                 in_zone_mode = True
                 # prev_tag = tag
                 prev_name = zone_name
-            elif tag[0] == '\t' and in_zone_mode:
-                # Collect subsequent lines that begin with a TAB character into
-                # the current 'Zone' entry.
+            elif line[0].isspace() and in_zone_mode:
+                # Collect subsequent lines that begin with a TAB (or, as zic
+                # also accepts, a space) character into the current 'Zone'
+                # entry.
                 _add_item(self.zone_lines, prev_name, line)
 
     def _process_rules(self) -> None:
